@@ -228,4 +228,16 @@ def run_case(spec, ctx):
                 k = int(np.argmax(u))
                 ctx.check(u[k] <= 8, 'row-independence', 'C07:%s-row-dependence' % probe,
                           lambda: dict(where, row=batch[k], in_batch=whole[k], alone=single[k]))
+    # instance reuse: an instance re-parameterised by assignment behaves like a fresh one -------------------
+    reused, th0 = biv.reused_model(fam, th, rng)
+    fresh = biv.make_model(fam, th)
+    R = biv.interior_points(rng, 40)
+    ok_r, a = ctx.call(reused.partial_derivative, R)
+    ok_f, b = ctx.call(fresh.partial_derivative, R)
+    ctx.check(ok_r and ok_f and (biv.ulps(a, b) <= 8).all(), 'instance-reuse', 'C07:h-depends-on-instance-history',
+              lambda: dict(where, previous_theta=th0))
+    ok_r, a = ctx.call(reused.probability_density, R)
+    ok_f, b = ctx.call(fresh.probability_density, R)
+    ctx.check(ok_r and ok_f and (biv.ulps(a, b) <= 8).all(), 'instance-reuse', 'C07:pdf-depends-on-instance-history',
+              lambda: dict(where, previous_theta=th0))
     ctx.sample({'family': fam, 'theta': th, 'reference_points': len(X), 'rectangles': n})
